@@ -97,9 +97,9 @@ def path_cases(tier, rng):
             yield hist_case(1, True, ops2, src="exh3x3")
     for i in range(n):
         d = rng.choice([0, 1])
-        nn = rng.choice([3, 4, 4, 5])
-        tm = rng.choice([2, 3, 4, 5])
-        ops = temporal_graph(rng, nn, tm, bool(d), p=rng.choice([0.2, 0.3, 0.45]), loops=(rng.random() < 0.15))
+        nn = rng.choice([3, 3, 4, 4, 5])
+        tm = rng.choice([2, 3, 3, 4]) if tier == "quick" else rng.choice([2, 3, 4, 5])
+        ops = temporal_graph(rng, nn, tm, bool(d), p=rng.choice([0.15, 0.25, 0.35]), loops=(rng.random() < 0.15))
         if rng.random() < 0.3:
             ops = [[o[0], o[1], o[2], o[3] * 2 + 3, None if o[4] is None else o[4] * 2 + 3] for o in ops]   # gaps between ids
         yield hist_case(d, True, ops, ids="str" if i % 5 == 0 else "int", src="rand")
@@ -127,7 +127,8 @@ def queries(case, rng):
 
 
 class PathsBase:
-    chunk = 50
+    chunk = 20
+    case_timeout = 4
 
     @classmethod
     def cases(cls, tier, rng):
